@@ -928,7 +928,10 @@ def main():
                               "tzical._parse_rfc text handling other than the translated pieces (str.splitlines, "
                               "unfolding loop, state machine are hand-modelled, not regenerated)", "non-ASCII text"],
         "regenerated_from_source": ["_tzicalvtz._find_compdt / utcoffset / dst / tzname", "tzical._parse_offset",
-                                    "lock discipline of _tzicalvtz._find_comp", "rrulestr(compatible=True) flag"],
+                                    "lock discipline of _tzicalvtz._find_comp", "rrulestr(compatible=True) flag",
+                                    "_find_comp component selection (single / latest onset / first STANDARD)",
+                                    "_find_comp cache regions (index lookup on the parallel lists; insert(0) + "
+                                    "pop() beyond 10)"],
         "known_findings_hit": verdict.known_hits,
     }
     C.write_evidence(CID, tier, t0, props, cov,
